@@ -220,6 +220,7 @@ class Interp:
         self.by_func = {}
         self.max_depth = max_depth
         self.notes = []
+        self.langs_by_sig = {}
         self._stack = []
 
     # ------------------------------------------------------------------
@@ -503,7 +504,9 @@ class Interp:
             return Poison("binary op %s" % norm(e))
         if isinstance(e, ast.JoinedStr):
             return Str(SIGMA)
-        if isinstance(e, (ast.Compare, ast.BoolOp)):
+        if isinstance(e, ast.BoolOp):
+            return self._boolop(a, e, st, n)
+        if isinstance(e, ast.Compare):
             for sub in ast.iter_child_nodes(e):
                 if isinstance(sub, ast.expr):
                     self.eval(a, sub, st, n)
@@ -536,6 +539,45 @@ class Interp:
         if isinstance(e, ast.Lambda):
             return Other("lambda")
         return Poison("expression %s" % type(e).__name__)
+
+    def _boolop(self, a, e, st, n):
+        """Value semantics of `x or y` / `x and y` (the operand that decides)."""
+        vals = [self.eval(a, v, st, n) for v in e.values]
+        is_or = isinstance(e.op, ast.Or)
+        out = None
+        tags = ()
+        for i, v in enumerate(vals):
+            last = i == len(vals) - 1
+            if isinstance(v, Poison):
+                return v
+            if isinstance(v, Str) and v.lang.witness() is None and not last:
+                continue  # no value at all (e.g. lookup in an empty map)
+            if isinstance(v, Str):
+                decide = v.lang & (NONEMPTY if is_or else EPS)  # values at which evaluation stops here
+                cont = v.lang & (EPS if is_or else NONEMPTY)  # values that fall through to the next operand
+                if last:
+                    out = join(out, Str(v.lang, tags + v.strips))
+                    break
+                if decide.witness() is not None:
+                    out = join(out, Str(decide, v.strips))
+                if cont.witness() is None:
+                    break
+                if is_or:
+                    sig = cont.sig()
+                    self.langs_by_sig[sig] = cont
+                    tags = tags + ((getattr(e, "lineno", 0), "ordefault", sig, norm(e)[:60]),)
+                continue
+            if isinstance(v, Other) and v.has_const:
+                truth = bool(v.const)
+                if truth == is_or:
+                    out = join(out, v)
+                    break
+                if last:
+                    out = join(out, v)
+                continue
+            # unknown truthiness: may stop or continue
+            out = join(out, v) if not isinstance(v, (IntFind, MatchV)) else join(out, Other("value"))
+        return out if out is not None else Other("bool")
 
     def _from_const(self, v):
         b = to_bytes(v)
